@@ -33,6 +33,7 @@ type run struct {
 	// success (login jail) and consecutive BAD replies (the session is closed after 20). They keep BFS states apart.
 	failedLogins int
 	badStreak    int
+	leaked       bool // the server was provoked into leaking a session state (see Step)
 }
 
 func init() {
@@ -81,7 +82,13 @@ func New(raw json.RawMessage) (explore.Run, error) {
 	return r, nil
 }
 
-func (r *run) Close() { r.w.Close() }
+func (r *run) Close() {
+	if r.leaked {
+		r.w.Abandon() // the server holds a session state nobody serves: Close would wait for the watchdog
+		return
+	}
+	r.w.Close()
+}
 
 func (r *run) Enabled() []explore.Event {
 	if r.s.Dead {
@@ -224,10 +231,18 @@ func (r *run) Step(ev explore.Event) []explore.Violation {
 		r.w.Logout(r.s)
 		r.s.Dead = true
 	}
-	if !r.s.Dead {
+	// a LOGIN that is accepted although the session is authenticated already replaces the session's state behind the
+	// harness's back: the violation is reported below, the session is not followed any further (the state the harness
+	// knows is no longer served, waiting for it would only run into the watchdog)
+	relogin := verb == "LOGIN" && st != "notauth" && res.Err == nil && res.Status == "OK"
+	if !r.s.Dead && !relogin {
 		if r.s.User >= 0 {
 			_ = r.w.Barrier(r.s)
 		}
+	}
+	if relogin {
+		r.leaked = true
+		defer func() { r.s.Dead = true }()
 	}
 	a1, a2, err := r.worlds()
 	if err != nil {
